@@ -191,6 +191,56 @@ theorem C27_cache_transparent (view : String → List Cfg) (ts : List String) :
     getNSeq view [] ts = ts.map (fun t => route t (view t)) :=
   getNSeq_eq view ts [] (sound_nil view)
 
+/-! ### replica indices: the selected hashring answers, also when it fails -/
+
+theorem getNSeqN_eq (view : String → List Cfg) (sizes : List Nat) : ∀ (reqs : List (String × Nat)) (cache : Cache),
+    Sound view cache → getNSeqN view sizes cache reqs = reqs.map (fun r => answer sizes r.2 (route r.1 (view r.1)))
+  | [], _, _ => rfl
+  | (t, n) :: ts, cache, hs => by
+    obtain ⟨h1, h2⟩ := getN_sound view cache t hs
+    simp only [getNSeqN, List.map_cons]
+    rw [h1, getNSeqN_eq view sizes ts _ h2]
+
+/-- **C27 with replica indices.**  For every history of `(tenant, n)` requests on a fresh multi
+    hashring, each answer is the answer of the hashring that routing selects for the tenant —
+    independent of `n`, of earlier requests and of earlier failures: an out-of-range replica index
+    gets the selected hashring's error, never a node of a later matching hashring. -/
+theorem C27_selected_ring_answers (view : String → List Cfg) (sizes : List Nat) (reqs : List (String × Nat)) :
+    getNSeqN view sizes [] reqs = reqs.map (fun r => answer sizes r.2 (route r.1 (view r.1))) :=
+  getNSeqN_eq view sizes reqs [] (sound_nil view)
+
+/-- **C27, first match, restated with errors.**  With well-formed patterns: hashring `i` answers
+    the request — with a node or with its own "insufficient nodes" error — iff configuration `i`
+    accepts the tenant and no earlier configuration does. -/
+theorem C27_first_match_errors (tenant : String) (cfgs : List Cfg) (sizes : List Nat) (n i : Nat)
+    (wf : WellFormed cfgs) (hi : i < sizes.length) :
+    (answer sizes n (route tenant cfgs) = .served i ∨ ∃ s, answer sizes n (route tenant cfgs) = .insufficient i s) ↔
+      (∃ c, cfgs[i]? = some c ∧ Accepts c tenant) ∧
+        ∀ j, j < i → ∀ c, cfgs[j]? = some c → ¬ Accepts c tenant := by
+  rw [← C27_first_match tenant cfgs i wf]
+  constructor
+  · intro h
+    cases hr : route tenant cfgs with
+    | ring j =>
+      rw [hr] at h
+      simp only [answer] at h
+      cases hs : sizes[j]? with
+      | none => simp [hs] at h
+      | some s =>
+        simp only [hs] at h
+        by_cases hn : n < s
+        · simp [hn] at h; rw [h]
+        · simp [hn] at h; rw [h]
+    | none => rw [hr] at h; simp [answer] at h
+    | err => rw [hr] at h; simp [answer] at h
+    | ringOrErr j => rw [hr] at h; simp [answer] at h
+  · intro h
+    rw [h]
+    simp only [answer, List.getElem?_eq_getElem hi]
+    by_cases hn : n < sizes[i]
+    · left; simp [hn]
+    · right; exact ⟨sizes[i], by simp [hn]⟩
+
 /-! ### concurrent requests
 
   `GetN` reads the cache under the read lock, and on a miss routes without any lock and then
@@ -277,5 +327,9 @@ example : route "other" [⟨.exact, ["team-a"], []⟩, ⟨.glob, ["team-*"], [.n
 example : WellFormed [⟨.exact, ["team-a"], []⟩, ⟨.glob, ["team-*"], [.yes]⟩, ⟨.exact, [], []⟩] := by
   intro c hc; simp at hc; rcases hc with rfl | rfl | rfl <;> decide
 example : getNSeq (fun _ => [⟨.exact, ["a"], []⟩, ⟨.exact, [], []⟩]) [] ["a", "b", "a"] = [.ring 0, .ring 1, .ring 0] := by decide
+-- hashring 0 (one node) is selected for "a"; asking it for replica 1 FIRST gives its error, not a node of the
+-- default hashring 1 (two nodes), and "a" stays with hashring 0 afterwards
+example : getNSeqN (fun _ => [⟨.exact, ["a"], []⟩, ⟨.exact, [], []⟩]) [1, 2] [] [("a", 1), ("a", 0), ("b", 1), ("b", 2)]
+    = [.insufficient 0 1, .served 0, .served 1, .insufficient 1 2] := by decide
 
 end Thanos.MultiRing
